@@ -12,7 +12,7 @@ package types
 
 // index = (first 8 bytes of hash as big-endian integer) mod max, for max > 0
 //@ func PseudorandomSelection
-//@   props C31,C33
+//@   props C31,C33,C12
 //@   panics_unless max.i != nil && cap(hash) >= 8 && bigv[max.i] != 0
 //@   modifies bigv
 //@   ensures index.i != nil && fresh(index.i)
@@ -40,7 +40,7 @@ package types
 //@ pure maxchOn(h int) bool = (global(codec.UpgradeFeatureMap)["MAXCH"] != 0 && h >= global(codec.UpgradeFeatureMap)["MAXCH"]) || global(codec.TestMode) <= 0 - 3
 
 //@ func NewSessionNodes
-//@   props C33
+//@   props C33,C12
 //@   requires sessionNodesCount >= 1
 //@   modifies all
 //@   ensures [count] err == nil ==> len(sessionNodes) == sessionNodesCount
@@ -67,7 +67,7 @@ package types
 
 // Validate: what a successful verification implies about the inputs.
 //@ func (MerkleProof).Validate
-//@   props C30
+//@   props C30,C12
 //@   modifies all
 //@   ensures [valid-not-replay] isValid ==> !isReplayAttack
 //@   ensures [root-lower-zero] isValid ==> root.Range.Lower == 0
